@@ -88,8 +88,12 @@ pub fn check(deep: bool, st: &mut TStats, fails: &mut Vec<Failure>) {
             }
         }
     }
+    // symbolic constants that are also propositional predicates, and whose renamed forms are taken as well (names as they are after `rename`)
+    for t in ["p0 <-> q0 and q0__s and q1(q0) and not q1(q0__s)", "q1(p0) and q1(q0) -> p0 or q0", "p0 or q1(r0) or q1(r0__s) or q1(r0__s__s)", "q0__s <-> q1(q0__s) and not q1(q0)"] {
+        if let Ok(f) = fol::Formula::from_str(t) { srcs.push(f); }
+    }
     srcs.dedup();
-    let ug = "input: q0/0. input: q1/1. input: q2/2. input: r0/0. input: r1/1. output: p0/0. output: p1/1. output: p2/2. input: n -> integer. input: c -> symbol. input: d -> general.";
+    let ug = "input: q0__s/0. input: r0__s/0. input: q0/0. input: q1/1. input: q2/2. input: r0/0. input: r1/1. output: p0/0. output: p1/1. output: p2/2. input: n -> integer. input: c -> symbol. input: d -> general.";
     let inner = [Val::Int(0), Val::Int(1), Val::Sym("a".into())];
     let mut uni: Vec<GroundAtom> = vec![("p0".into(), vec![]), ("q0".into(), vec![]), ("r0".into(), vec![])];
     for v in &inner { for p in ["p1", "q1", "r1"] { uni.push((p.into(), vec![v.clone()])); } }
@@ -114,6 +118,29 @@ pub fn check(deep: bool, st: &mut TStats, fails: &mut Vec<Failure>) {
             for e in &p.wf_errors { fl.push(Failure { property: "C09", input: format!("{what}`spec: {f}.`"), detail: format!("{}: {e}", p.file) }); }
             let conj: Vec<_> = p.formulas.iter().filter(|(_, role, _)| role == "conjecture").collect();
             if !p.readable || conj.len() != 1 { fl.push(Failure { property: "C06", input: format!("{what}`spec: {f}.`"), detail: format!("{}: the rendered formula cannot be read back ({} conjectures)", p.file, conj.len()) }); continue; }
+            // distinct symbolic constants stay distinct: the problem declares as many constants of sort symbol as its formulas (the spec
+            // formulas up to this one; the program has none) mention
+            {
+                fn syms(f: &fol::Formula, out: &mut std::collections::BTreeSet<String>) {
+                    fn term(t: &fol::GeneralTerm, out: &mut std::collections::BTreeSet<String>) { if let fol::GeneralTerm::SymbolicTerm(fol::SymbolicTerm::Symbol(s)) = t { out.insert(s.clone()); } }
+                    match f {
+                        fol::Formula::AtomicFormula(fol::AtomicFormula::Atom(a)) => for t in &a.terms { term(t, out) },
+                        fol::Formula::AtomicFormula(fol::AtomicFormula::Comparison(c)) => { term(&c.term, out); for g in &c.guards { term(&g.term, out); } }
+                        fol::Formula::AtomicFormula(_) => {}
+                        fol::Formula::UnaryFormula { formula, .. } | fol::Formula::QuantifiedFormula { formula, .. } => syms(formula, out),
+                        fol::Formula::BinaryFormula { lhs, rhs, .. } => { syms(lhs, out); syms(rhs, out); }
+                    }
+                }
+                let mut want = std::collections::BTreeSet::new();
+                for g in &chunk[..=k] { syms(g, &mut want); }
+                for c in ["n", "c", "d"] { want.remove(c); }
+                let mut own = std::collections::BTreeSet::new();
+                syms(f, &mut own);
+                let declared: std::collections::BTreeSet<&String> = p.symbols.iter().collect();
+                if declared.len() < own.iter().filter(|s| !["n", "c", "d"].contains(&s.as_str())).count() || declared.len() > want.len() {
+                    fl.push(Failure { property: "C06", input: format!("{what}`spec: {f}.`"), detail: format!("{}: the formula mentions the symbolic constants {:?} (all formulas of the problem: {:?}) but the problem declares {:?}", p.file, own, want, p.symbols) });
+                }
+            }
             let rendered = &conj[0].2;
             let src = cheapest_first(f);
             let seed = f.to_string().bytes().fold(0xcbf29ce484222325u64, |h, b| (h ^ b as u64).wrapping_mul(0x100000001b3));
